@@ -112,6 +112,21 @@ def specStepH (L : Log A) : HOp A → Log A
 
 def specRunH (L : Log A) (ops : List (HOp A)) : Log A := ops.foldl specStepH L
 
+/-! ### a history query running concurrently with other calls
+
+`update_history_records` reads `command-1`, `command-2`, … one key-value call (one acquisition of
+the scope lock) at a time and stops at the first key that is missing; commands of other threads
+can slip in between two reads.  `logAt L between k` is the log the `k`-th read (`k = 0, 1, …`)
+sees: `between k` are the operations serialised between read `k` and read `k+1`. -/
+
+def logAt (L : Log A) (between : Nat → List (Op A)) : Nat → Log A
+  | 0 => L
+  | k + 1 => specRun (logAt L between k) (between k)
+
+/-- Read number `k` looks at `command-(k+1).json`. -/
+def readAt (L : Log A) (between : Nat → List (Op A)) (k : Nat) : Option (Stored A) :=
+  (logAt L between k)[k + 1]?
+
 /-- "`process` only emits applicable events", for the states that can actually occur:
 `Reachable` is the closure of the initial states under accepted commands. -/
 inductive Reachable (A : Agg) : A.State → Prop where
